@@ -18,7 +18,9 @@ complement numbers.
 
 Builders whose statement FAILS on the current code have a `…_wrong` theorem
 (negation with a concrete witness, kernel-checked by `decide`) and a
-`…_partial` theorem that carries the exact width guard.
+`…_partial` theorem that carries the exact guard.  After the fix commits
+b4e0da3, 1a24bc4, b8285b2 only the signed comparators remain in that state
+(zero extension of the narrower signed operand).
 
 NOT proved here (validated by the oracle and, for the gate lists, by T4 only):
 Kogge-Stone adder/subtractor, array / Karatsuba / Wallace multipliers, all
@@ -83,23 +85,19 @@ theorem C07_adder_compute_model (pro : Bool) (x y : List Bool) (nz : Nat)
 
 /-! ## Subtraction -/
 
-/- Full statement (FALSE on the current code, see `C07_sub_wide_wrong`):
-   for every nz ≥ 1:  toNat z = (toNat x - toNat y) mod 2^nz. -/
-
-/-- `NewSubtractor` on the Yao target is exact when the result is at most one
-bit wider than the operands (`nz ≤ max(|x|,|y|) + 1`): the result has `nz` bits
-and equals `(x - y) mod 2^nz`. -/
-theorem C07_sub_partial (pro : Bool) (x y : List Bool) (nz : Nat)
-    (hw : 0 < max x.length y.length) (hnz : 0 < nz) (hle : nz ≤ max x.length y.length + 1) :
+/-- `NewSubtractor` on the Yao target (ripple borrow; since fix 1a24bc4 the
+leftover result bits are copies of the borrow): for all operand widths, every
+result width `nz ≥ 1` and all operand values the result has `nz` bits and is
+`(x - y) mod 2^nz`. -/
+theorem C07_sub (pro : Bool) (x y : List Bool) (nz : Nat)
+    (hw : 0 < max x.length y.length) (hnz : 0 < nz) :
     (evalBuilder (fun a b => rippleSubtractor a b nz) pro x y).length = nz ∧
     (toNat (evalBuilder (fun a b => rippleSubtractor a b nz) pro x y) : Int) =
       ((toNat x : Int) - (toNat y : Int)) % ((2 ^ nz : Nat) : Int) := by
   refine evalBuilder_spec (R := fun z => z.length = nz ∧
     (toNat z : Int) = ((toNat x : Int) - (toNat y : Int)) % ((2 ^ nz : Nat) : Int)) ?_ pro (by omega)
   intro s inp xw yw hwf hx hy hxv hyv
-  have hlx : xw.length = x.length := by rw [← hxv]; simp
-  have hly : yw.length = y.length := by rw [← hyv]; simp
-  refine (rippleSubtractor_spec hwf nz hx hy hnz (by omega)).mono ?_
+  refine (rippleSubtractor_spec hwf nz hx hy hnz).mono ?_
   intro z s' _ ⟨hb, hl, hv⟩
   refine ⟨hb, by simpa using hl, ?_⟩
   rw [hxv, hyv] at hv
@@ -107,16 +105,8 @@ theorem C07_sub_partial (pro : Bool) (x y : List Bool) (nz : Nat)
   rw [busVal_length, hl] at hlt
   exact sub_mod_int _ _ _ _ hlt hv
 
-example : toNat (evalBuilder (fun a b => rippleSubtractor a b 3) true [false, false] [true, false]) = 7 := by
-  decide
-
-/-- Negation witness: with a result more than one bit wider than the operands
-the subtractor is wrong: 2-bit `0 - 1` into 4 bits gives 7, not 15 (the bits
-above `max+1` are the zero wire instead of copies of the borrow).  Replayed on
-the Go code: `c07 one -extra "sub 0 1 2 2 0 4 0 0 0 1 0"`. -/
-theorem C07_sub_wide_wrong :
-    toNat (evalBuilder (fun a b => rippleSubtractor a b 4) true [false, false] [true, false]) = 7 ∧
-    ((0 : Int) - 1) % 2 ^ 4 = 15 := by
+-- 2-bit 0 - 1 into 4 bits is 15 (was 7 before fix 1a24bc4)
+example : toNat (evalBuilder (fun a b => rippleSubtractor a b 4) true [false, false] [true, false]) = 15 := by
   decide
 
 /-! ## Ordered comparisons -/
@@ -361,14 +351,11 @@ example : evalBuilder (newIndex 2) true [true, false, false, true, true, true] [
 
 /-! ## Hamming distance -/
 
-/- Full statement (the Go builder PANICS for 1-bit operands: `arr[1]` with a
-   single leaf; oracle finding C07-hamming-1bit-panic): every width ≥ 1. -/
-
-/-- `Hamming` on the Yao target for operands at least two bits wide, every
-result width: the result is the number of bit positions in which the (zero
-padded) operands differ, modulo `2^nz`. -/
-theorem C07_hamming_partial (pro : Bool) (x y : List Bool) (nz : Nat)
-    (hw : 2 ≤ max x.length y.length) (hnz : 0 < nz) :
+/-- `Hamming` on the Yao target for every operand width ≥ 1 (the 1-bit case
+since fix b8285b2) and every result width: the result is the number of bit
+positions in which the (zero padded) operands differ, modulo `2^nz`. -/
+theorem C07_hamming (pro : Bool) (x y : List Bool) (nz : Nat)
+    (hw : 1 ≤ max x.length y.length) (hnz : 0 < nz) :
     (evalBuilder (fun a b => hamming false a b nz) pro x y).length = nz ∧
     toNat (evalBuilder (fun a b => hamming false a b nz) pro x y) =
       popDiff ((padTo x (max x.length y.length)).zip (padTo y (max x.length y.length))) % 2 ^ nz := by
@@ -383,36 +370,35 @@ theorem C07_hamming_partial (pro : Bool) (x y : List Bool) (nz : Nat)
 
 example : toNat (evalBuilder (fun a b => hamming false a b 3) true [true, false, true] [false, false, false, true]) = 3 := by
   decide +kernel
+example : toNat (evalBuilder (fun a b => hamming false a b 2) true [true] [false]) = 1 := by
+  decide +kernel
 
 /-! ## Array multiplier -/
 
-/- Full statement (FALSE, see `C07_arrayMult_wide_wrong`): for every nz ≥ 1
-   toNat z = (toNat x * toNat y) mod 2^nz.  The general-width proof of the
-   partial statement (nz ≤ 2·max) is not done; the guard is checked
-   exhaustively for operand widths up to 2 below and by the oracle up to 8. -/
+/- Full statement: for every operand width and every nz ≥ 1
+   toNat z = (toNat x * toNat y) mod 2^nz.  A general-width proof is NOT done
+   (the generator is loop based); since fix b4e0da3 no result-width restriction
+   remains: the statement is kernel-checked for operand widths 1..2 and EVERY
+   result width 1..7 (beyond 2·max+3) below, and checked by the oracle for all
+   operand widths up to 8 exhaustively and sampled to 130 bits. -/
 
 /-- All bit lists of length `n`. -/
 def allBits : Nat → List (List Bool)
   | 0 => [[]]
   | n + 1 => (allBits n).flatMap fun l => [false :: l, true :: l]
 
-/-- `NewArrayMultiplier` is exact for all operand widths 1..2, every result
-width `1 ≤ nz ≤ 2·max(|x|,|y|)` and all operand values (kernel-checked
-enumeration of the model that T4 ties to the Go gate lists; wider operands
-make kernel evaluation of the loop-based generator too slow). -/
-theorem C07_arrayMult_partial_small :
-    ∀ nx ∈ [1, 2], ∀ ny ∈ [1, 2], ∀ nz ∈ List.range (2 * max nx ny + 1), 0 < nz →
+/-- `NewArrayMultiplier` is exact for operand widths 1..2, every result width
+1..7 (narrower, equal, double and wider than double the operand width) and all
+operand values (kernel-checked enumeration of the model that T4 ties to the Go
+gate lists; wider operands make kernel evaluation of the loop-based generator
+too slow). -/
+theorem C07_arrayMult_small :
+    ∀ nx ∈ [1, 2], ∀ ny ∈ [1, 2], ∀ nz ∈ [1, 2, 3, 4, 5, 6, 7],
       ∀ x ∈ allBits nx, ∀ y ∈ allBits ny,
         toNat (evalArrayMult true x y nz) = (toNat x * toNat y) % 2 ^ nz := by
   decide +kernel
 
-/-- Negation witness: `|z| > 2·max(|x|,|y|)`: 2-bit `1 * 2` into 6 bits gives 0
-(the surplus-bit loop assigns `z[1]` instead of `z[i]`).  Replayed on the Go
-code: `c07 one -extra "mularray 0 1 2 2 0 6 0 0 1 2 0"`. -/
-theorem C07_arrayMult_wide_wrong :
-    toNat (evalArrayMult true [true, false] [false, true] 6) = 0 ∧ (1 * 2) % 2 ^ 6 = 2 := by
-  decide +kernel
-
-example : toNat (evalArrayMult true [true, true] [true, true] 4) = 9 := by decide +kernel
+-- 2-bit 1 * 2 into 6 bits is 2 (was 0 before fix b4e0da3)
+example : toNat (evalArrayMult true [true, false] [false, true] 6) = 2 := by decide +kernel
 
 end Mpc
